@@ -103,6 +103,15 @@ def twin(ctx, Model, spec, scripts, opts, a, b, a_label, b_label, case):
     lo = 0 if a is None else a
     hi = n - 1 if b is None else b
     periods = list(range(lo, hi + 1))
+    # the period iterator solve() is built on is public too: (position, label) pairs of exactly the periods to visit, with a length
+    it = call(lambda: A.iter_periods(**kw))
+    if it[0] == 'ret':
+        ctx.count('period_iterators_checked')
+        pairs = list(it[1])
+        span_list = list(A.span)
+        if [p for p, _ in pairs] != periods or not all(lab == span_list[p] for p, lab in pairs) or len(it[1]) != len(periods) or list(it[1]) != pairs:
+            ctx.violation('iter-periods', f'iter_periods({kw}) yields {pairs[:8]} (len() = {len(it[1])}); the periods from start to end inclusive are {periods}', case)
+            return
     ra = call(A.solve, **kw, **opts)
     if opts['min_iter'] > opts['max_iter']:
         rb = ('exc', 'ValueError', None)
